@@ -180,6 +180,15 @@ def g_c15(tier, seed):
                 samples=[dict(n=15, val_prop=0.1)], failures=fails[:5], errors=[])
 
 
+@grid("C17")
+def g_c17(tier, seed):
+    cnt = []
+    fails = rt.rt_c17(tier, count=cnt)
+    return dict(evaluations=cnt[0] if cnt else 0, distinct_nontrivial=cnt[0] if cnt else 0,
+                rule="real MaximumLikelihoodLoss / ElboLoss (both estimators, same key; analytic stick-the-landing gradient for a diagonal Normal) / ContrastiveLoss (non-flat prior, batch x n_contrastive grid, index sets from the real _get_contrastive_idxs) re-evaluated in NumPy through the public log_prob / sample API",
+                samples=[dict(loss="contrastive", batch=5, n_contrastive=2)], failures=fails[:5], errors=[])
+
+
 def main():
     if len(sys.argv) == 3 and sys.argv[1] == "--c10-batch":
         print(json.dumps(rt.rt_bisection_batch(json.loads(sys.argv[2]))))
